@@ -176,6 +176,21 @@ CLAIMED['C10'] = (
     'bytes (C11). The statement\'s byte-level diff of a whole response is NOT decided - only these ingredients are.',
     'contract-based deductive verification (AST->VC generator, z3 + cvc5), native replay (source extraction for the handler)')
 
+CLAIMED['C15'] = (
+    'DESIGN.md 0a (C15)',
+    'Reduced scope. Proof: the handler body wrapped by login_required / jwt_login_required runs exactly when the user is '
+    'authenticated, has the admin flag when admin is asked for and the permission group when one is asked for (all four '
+    'combinations each), otherwise a 401 / login response is returned and the body is not entered; csrf_token_required runs the body '
+    'exactly when a token was found (JSON body, query, form - in that order) and CsrfProtection.check accepted it (or none was '
+    'found and the token is optional). Guard table, regenerated from the source on every run: each of 20 state-changing handler '
+    'methods named in the property\'s anchors carries the guard the documentation assigns (media group for streams, media, keys; '
+    'admin / logged-in JWT user for user management).',
+    'Trusted / not covered: Flask MethodView applying `decorators`, flask_login / flask_jwt_extended user objects, the handler bodies '
+    '("state unchanged" is reduced to "body not entered"), the CSRF token algebra (HMAC, store of used tokens) and token pruning. '
+    'Known findings: multi_period_streams.EditStream.post / delete admit every logged-in user. The guard table is a syntactic '
+    'obligation (decidable by reading the decorator lists), not an SMT proof.',
+    'contract-based deductive verification of the decorator closures (AST->VC generator, z3) + source-derived guard lemmas')
+
 CLAIMED['C04'] = (
     'DESIGN.md 4 C04 / 0a',
     'Reduced scope. Proof, per box class (mfhd, mehd, trex, tfdt, tfhd with all 2^5 optional-field combinations, trun header, '
@@ -207,7 +222,6 @@ CLAIMED['C03'] = (
 NOT_APPLICABLE = {
     'C05': 'XML documents come out of Jinja templates rendered by an external engine; no function contract reaches them and the app cannot be instantiated offline (flask_login missing).',
     'C07': 'Identity of string transducers (quote_plus, regex date parsing, split) over a registry built with getattr; SMT string solvers leave these undecided; a proof over only int/bool options would not decide the property.',
-    'C15': 'Quantifies over the route table, roles and database state; decorators and handlers cannot be imported; no per-function contract expresses it.',
     'C17': 'Histories of ORM operations and cascades; needs a model of SQLAlchemy, which would be proving a model, not the code.',
     'C18': 'Whole-system differential property of the validator over generated streams.',
 }
